@@ -356,6 +356,11 @@ class CircuitCompositeOperation(ICircuitCompositeOperation):
         WARNING: Applies modifier inplace.
         :return: Simple repeat.
         """
+        # Guard clause, zero repetitions leave nothing to be executed (consistent with exporters, which emit the block 0 times)
+        if times < 1:
+            self._circuit_graph = CircuitGraphBranch()
+            clear_start_time_cache()  # Circuit structure changes
+            return self
         original_self = self.copy()
         for i in range(times - 1):
             self.extend(other=original_self.copy())
